@@ -49,43 +49,61 @@ TraceReset ==
     /\ Reset
     /\ tag' = Ev.tag
 
+(***************************************************************************)
+(* A `Huge` event is a Recv whose chunk is 4 GiB or more of zero bytes,    *)
+(* parsed in place by the byte entry points.  The specification is given   *)
+(* the first m of those zeros; that stands for all of them only if its own *)
+(* verdict on the shorter buffer is already final for both versions (no    *)
+(* later byte can change a final verdict: C04, C17, C18) - checked as a    *)
+(* binding condition.                                                      *)
+(***************************************************************************)
+HugeBindFails(b) ==
+    LET mv == ModelVerdict(b)
+    IN  IF mv["v2"].inc \/ mv["v1b"].inc THEN {<< "BIND", "huge-chunk-too-short-to-stand-for-the-rest", "huge" >>} ELSE {}
+
+RecvBody(chunk, v, huge) ==
+    LET b == buf \o chunk
+        c12 == C12(b, v)
+    IN  /\ Recv(chunk, v)
+        /\ Emit((IF huge THEN HugeBindFails(b) ELSE BindFails(b, v))
+                \cup Sel("C01", C01_Fails(b, v))
+                \cup Sel("C02", C02_Fails(b, v))
+                \cup Sel("C03", C03_Fails(b, v))
+                \cup Sel("C04", C04_Fails(b, v, hist))
+                \cup Sel("C05", C05_Fails(b, v, hist))
+                \cup Sel("C06", C06_Fails(b, v))
+                \cup Sel("C08", C08_StreamFails(b, v))
+                \cup Sel("C11", C11_Fails(b, v))
+                \cup c12.f
+                \cup Sel("C14", C14_Fails(b, v))
+                \cup Sel("C15", C15_Fails(b, v))
+                \cup Sel("C16", C16_Fails(b, v))
+                \cup Sel("C17", C17_Fails(b, v, hist, Len(chunk)))
+                \cup Sel("C18", C18_Fails(b, v))
+                \cup Sel("DRIFT", IF huge THEN {} ELSE DriftFails(b, v)),
+                Flag("C01", C01_Nontrivial(b, v))
+                \cup Flag("C02", C02_Nontrivial(b, v))
+                \cup Flag("C03", Len(b) > 0)
+                \cup Flag("C04", C04_Nontrivial(b, v, hist))
+                \cup Flag("C05", C05_Nontrivial(b, v, hist))
+                \cup Flag("C06", C06_Nontrivial(b, v))
+                \cup Flag("C08", C15_Nontrivial(b, v))
+                \cup Flag("C11", C14_Nontrivial(b, v))
+                \cup Flag("C12", c12.nt)
+                \cup Flag("C14", C14_Nontrivial(b, v))
+                \cup Flag("C15", C15_Nontrivial(b, v))
+                \cup Flag("C16", C16_Nontrivial(b, v))
+                \cup Flag("C17", C17_Nontrivial(b, v))
+                \cup Flag("C18", C18_Nontrivial(b, v)))
+
 TraceRecv ==
     /\ IsEvent("Recv")
-    /\ LET chunk == Flat(Ev.c)
-           b == buf \o chunk
-           v == Ev.obs
-           c12 == C12(b, v)
-       IN  /\ Recv(chunk, v)
-           /\ Emit(BindFails(b, v)
-                   \cup Sel("C01", C01_Fails(b, v))
-                   \cup Sel("C02", C02_Fails(b, v))
-                   \cup Sel("C03", C03_Fails(b, v))
-                   \cup Sel("C04", C04_Fails(b, v, hist))
-                   \cup Sel("C05", C05_Fails(b, v, hist))
-                   \cup Sel("C06", C06_Fails(b, v))
-                   \cup Sel("C08", C08_StreamFails(b, v))
-                   \cup Sel("C11", C11_Fails(b, v))
-                   \cup c12.f
-                   \cup Sel("C14", C14_Fails(b, v))
-                   \cup Sel("C15", C15_Fails(b, v))
-                   \cup Sel("C16", C16_Fails(b, v))
-                   \cup Sel("C17", C17_Fails(b, v, hist, Len(chunk)))
-                   \cup Sel("C18", C18_Fails(b, v))
-                   \cup Sel("DRIFT", DriftFails(b, v)),
-                   Flag("C01", C01_Nontrivial(b, v))
-                   \cup Flag("C02", C02_Nontrivial(b, v))
-                   \cup Flag("C03", Len(b) > 0)
-                   \cup Flag("C04", C04_Nontrivial(b, v, hist))
-                   \cup Flag("C05", C05_Nontrivial(b, v, hist))
-                   \cup Flag("C06", C06_Nontrivial(b, v))
-                   \cup Flag("C08", C15_Nontrivial(b, v))
-                   \cup Flag("C11", C14_Nontrivial(b, v))
-                   \cup Flag("C12", c12.nt)
-                   \cup Flag("C14", C14_Nontrivial(b, v))
-                   \cup Flag("C15", C15_Nontrivial(b, v))
-                   \cup Flag("C16", C16_Nontrivial(b, v))
-                   \cup Flag("C17", C17_Nontrivial(b, v))
-                   \cup Flag("C18", C18_Nontrivial(b, v)))
+    /\ RecvBody(Flat(Ev.c), Ev.obs, FALSE)
+    /\ UNCHANGED tag
+
+TraceHuge ==
+    /\ IsEvent("Huge")
+    /\ RecvBody(Flat(Ev.c), Ev.obs, TRUE)
     /\ UNCHANGED tag
 
 TraceReparse ==
@@ -95,7 +113,7 @@ TraceReparse ==
             Flag("C04", TRUE))
     /\ UNCHANGED << buf, verdict, hist, tag >>
 
-TraceNext == TraceReset \/ TraceRecv \/ TraceReparse
+TraceNext == TraceReset \/ TraceRecv \/ TraceHuge \/ TraceReparse
 
 TraceSpec == TraceInit /\ [][TraceNext]_tvars
 
